@@ -90,8 +90,8 @@ PROPS = {
     },
     "C12": {
         "n": {"quick": 200, "thorough": 3000}, "diff_is_failure": True, "judge": True, "trivial_outs": {"i1", ""}, "shards": 8,
-        "rule": "scripts are terms of a DSL printed to Lua in a rigid concrete syntax that the model parses back (calls redis.call / redis.pcall with string, integer, decimal, KEYS[i], ARGV[i], nil/boolean/table arguments; table.sort of a result; return of one result, of all results or of a literal tree). Five case families, each on a fresh server process with the sweeper paused: (tw) twin histories - every command of the string/key catalogue of C01 and the list/set/hash catalogue of C03, with their boundary argument pools, is run directly on keys a:* and through EVAL (call or pcall; arguments as literals, numbers, KEYS, ARGV) on identically seeded keys b:*, in database 0, 1 or 15, followed by paired dumps (TYPE GET PTTL LRANGE SMEMBERS HGETALL of every key used, KEYS, DBSIZE); (mc) scripts of 1-5 calls mixing succeeding and failing commands on two connections with reads in between; (rs) return-shape scripts (nil, booleans, integers at the 2^53 / i64 boundaries, decimals, NaN/inf, binary strings, nested tables with holes, KEYS/ARGV incl. ill-formed UTF-8); (sb) sandbox probes 'return <global> == nil' over 38 names, calls of absent redis.* fields, the 27 refused commands under call and pcall between two writes; (sh) SCRIPT LOAD/EXISTS/FLUSH/KILL, EVALSHA (lower/upper-case digest, unknown digest, after FLUSH, in databases 0/1/15, two connections), EVAL argument errors (key count negative / not a number / larger than the argument list / integer frame, non-bulk key, non-UTF-8 source, syntax error). One evaluation = one reply compared between the server and the extracted Gallina model (SHA-1 digests are an oracle checked for consistency); the judge independently compares every twin pair on the server's own outputs (script reply = direct reply, dumps of a:* and b:* equal) and names the known class otherwise",
-        "explanation": "theorems: c12_parity (executor model = handler models for 58 commands, all databases and arguments, outside 9 decidable classes, each refuted by a witness), conversion round trip on its exact domain conv_safe with refutations outside it, call aborts / pcall continues / effects persist, one script = one step of the server (frame property), EVALSHA = EVAL of the cached source in database 0 (refuted elsewhere), KEYS/ARGV bytes for valid UTF-8 (refuted otherwise), sandbox and refused-command tables over Generated.v; tie: differential TCP histories against the extracted model + twin-pair oracle",
+        "rule": "scripts are terms of a DSL printed to Lua in a rigid concrete syntax that the model parses back (calls redis.call / redis.pcall with string, integer, decimal, KEYS[i], ARGV[i], nil/boolean/table arguments; table.sort of a result; return of one result, of all results or of a literal tree). Five case families, each on a fresh server process with the sweeper paused: (tw) twin histories - every command of the string/key catalogue of C01 and the list/set/hash catalogue of C03, with their boundary argument pools, and stream commands with explicit IDs (XADD XLEN XRANGE XREVRANGE XTRIM XDEL incl. COUNT / ~ / = / trailing-argument forms), is run directly on keys a:* and through EVAL (call or pcall; arguments as literals, numbers, KEYS, ARGV) on identically seeded keys b:*, in database 0, 1 or 15, followed by paired dumps (TYPE GET PTTL LRANGE SMEMBERS HGETALL of every key used, KEYS, DBSIZE); (mc) scripts of 1-5 calls mixing succeeding and failing commands on two connections with reads in between; (rs) return-shape scripts (nil, booleans, integers at the 2^53 / i64 boundaries, decimals, NaN/inf, binary strings, nested tables with holes, KEYS/ARGV incl. ill-formed UTF-8); (sb) sandbox probes 'return <global> == nil' over 38 names, calls of absent redis.* fields, the 27 refused commands under call and pcall between two writes; (sh) SCRIPT LOAD/EXISTS/FLUSH/KILL, EVALSHA (lower/upper-case digest, unknown digest, after FLUSH, in databases 0/1/15, two connections), EVAL argument errors (key count negative / not a number / larger than the argument list / integer frame, non-bulk key, non-UTF-8 source, syntax error). One evaluation = one reply compared between the server and the extracted Gallina model (SHA-1 digests are an oracle checked for consistency); the judge independently compares every twin pair on the server's own outputs (script reply = direct reply, dumps of a:* and b:* equal) and names the known class otherwise",
+        "explanation": "theorems: c12_parity (executor model = handler models for 58 commands, all databases and arguments, outside 9 decidable classes, each refuted by a witness) and its script-level form c12_call_same_as_direct, conversion round trip exactly on conv_safe (iff) with refutations outside it, call aborts / pcall continues / effects persist, one script = one step of the server (frame property), EVALSHA = EVAL of the cached source in database 0 (refuted elsewhere), KEYS/ARGV bytes for valid UTF-8 (refuted otherwise), sandbox and refused-command tables over Generated.v; tie: differential TCP histories against the extracted model + twin-pair oracle",
         "trusted_base": SRV_TB + ["the Lua 5.1 interpreter and mlua are not modelled: the quantifier 'all scripts' is covered for the DSL family only; harness/src/c12.rs prints DSL terms, Model/Lua.v parse_script reads the text back",
                                   "oracles: SHA-1 of a script source (taken from SCRIPT LOAD, checked for consistency with the cache); Rust's f64 Display and {:.17} formatting (decimals are restricted to dyadic values of at most 15 digits, which both print exactly); the set of globals of a Lua 5.1 state (Model/Lua.v lua51_globals, tied by the probes)",
                                   "tools/gen_tables.py: lua_removed_globals and lua_blocked extracted from lua_engine.rs"],
